@@ -111,8 +111,9 @@ def i32(rng, lo=None, hi=None):
     return rng.randint(lo, hi)
 
 
-def channels(rng, n):
-    """n distinct acquisition channels in 0..32767."""
+def channels(rng, n, top=32767):
+    """n distinct acquisition channels in 0..top (32767 for the signed maps, 65535 for the
+    unsigned map of the platform-data block)."""
     if rng.random() < 0.5:
         base = rng.randint(0, 4)
         chs = list(range(base, base + n))
@@ -121,7 +122,7 @@ def channels(rng, n):
         return chs
     s = set()
     while len(s) < n:
-        s.add(rng.choice((rng.randint(0, 40), rng.randint(0, 32767), 32767, 0)))
+        s.add(rng.choice((rng.randint(0, 40), rng.randint(0, top), top, 0, min(top, 32768), min(top, 32767))))
     chs = list(s)
     rng.shuffle(chs)
     return chs
@@ -150,7 +151,7 @@ def block(rng, kind, big=False, min_items=0, fmix=None, masks=None, fmt=None, hu
 
     def tracks(rec, with_label=True, with_ch=False):
         out = []
-        chs = channels(rng, nI) if with_ch else None
+        chs = channels(rng, nI, 65535 if kind == "fpdata" else 32767) if with_ch else None
         for k in range(nI):
             m = masks[k] if masks is not None else mask(rng, nF)
             tr = {}
@@ -160,6 +161,15 @@ def block(rng, kind, big=False, min_items=0, fmix=None, masks=None, fmt=None, hu
                 tr["label"] = text(rng, 256)
             tr["mask"] = m
             tr["data"] = f32s(rng, (rec // 4) * m.count("1"), fmix)
+            w = rec // 4
+            if w > 1 and tr["data"] and fmix != "ordinary" and rng.random() < 0.08:
+                # an infinite sample in a component that does not decide whether the frame is there
+                d = bytearray(tr["data"])
+                for _ in range(rng.randint(1, 3)):
+                    fr = rng.randrange(len(d) // (4 * w))
+                    col = rng.randint(1, w - 1)
+                    d[4 * (fr * w + col): 4 * (fr * w + col) + 4] = struct.pack("<I", rng.choice((0x7F800000, 0xFF800000)))
+                tr["data"] = bytes(d)
             out.append(tr)
         return out
 
@@ -173,6 +183,7 @@ def block(rng, kind, big=False, min_items=0, fmix=None, masks=None, fmt=None, hu
             C["links"] = [[rng.getrandbits(32) if rng.random() < 0.1 else rng.randint(0, max(nI, 1)),
                            rng.randint(0, max(nI, 1))] for _ in range(nL)]
             C["links_attr"] = rng.random() < 0.5
+            C["links_as"] = rng.choice(("struct", "struct", "tuples", "lists", "array"))  # the container the user puts them in
         C["tracks"] = tracks(12)
         return C
     if kind == "emg":
